@@ -265,6 +265,39 @@ Example C13_dsctx_nonvacuous :
   /\ nth 4 (snd (wrun v_fixed L_go wit_dsctx (w_setup v_fixed L_go dss_ab))) HOUnit = HONs (OCtx [(ns_name 3, x_pub)]).
 Proof. vm_compute. repeat split; reflexivity. Qed.
 
+(** One split function for every entry point.  Store.GetNamespacedIdentifier*, the stream parser of
+    POST /entities and of the HTTP dataset source, and the HttpTransform shim all compact a full URI the
+    same way, so the model has ONE [compact]: the CURIE handed out for u is determined by [url_parts u]
+    (a function of the URI only: after the last '#' if there is one, else after the last '/') and by the
+    prefix of that expansion - hence, for every op sequence with restarts/crashes anywhere, compacting
+    the same URI again (whenever, through whichever entry point) gives the same CURIE. *)
+Theorem C13_split_function : forall a ops u c,
+  let w := fst (ns_run a ops nsw_init) in
+  snd (ns_step a (NCompact u) w) = OStr c ->
+  exists e l p, url_parts u = Some (e, l) /\ c = p ++ c_colon :: l
+                /\ slookup p (p2e (mem (nst (fst (ns_step a (NCompact u) w))))) = Some e.
+Proof.
+  intros a ops u c w. cbn [ns_step]. destruct (compact u (nst w)) as [st' r] eqn:E. cbn [fst snd nst with_st].
+  destruct r as [c0|]; cbn [opt_out]; [|discriminate]. intros [= <-].
+  apply (compact_shape u (nst w) st' c0); [|exact E]. apply (ns_run_inv a ops nsw_init nsw_inv_init).
+Qed.
+Print Assumptions C13_split_function.
+
+Theorem C13_one_identifier_one_curie : forall L dss ops, 1 <= L ->
+  compact_fun_ok [] (ns_events (combine ops (snd (wrun v_fixed L ops (w_setup v_fixed L dss))))) = true.
+Proof.
+  intros L dss ops HL. apply (compact_fun_run L HL); [apply (winv_setup L HL) | intros u c []].
+Qed.
+Print Assumptions C13_one_identifier_one_curie.
+
+(** the other rule ("after the last '#' or '/'") is a different function: it disagrees exactly on URIs
+    like this one, a hash namespace with a slash in the local part *)
+Theorem C13_refuted_split_any :
+  url_parts x_hash_slash <> url_parts_any x_hash_slash
+  /\ url_parts x_nopath = url_parts_any x_nopath /\ url_parts x_uri = url_parts_any x_uri.
+Proof. split; [vm_compute; discriminate | split; vm_compute; reflexivity]. Qed.
+Print Assumptions C13_refuted_split_any.
+
 (** the hypothesis of C13_agree_implies_spec is met by the witness histories and is needed: an
     assertion after the last dump is judged against tables that cannot contain it *)
 Example C13_ends_dump_nonvacuous :
